@@ -1643,7 +1643,7 @@ theorem n1_program_outside_model :
     fits n1Prog 3 n1Top.callee = true ∧
     (runProgram n1Prog n1Oracle 3 n1Top).map (fun s => s.2.calls) =
       .ok [(n1NP, .obj [(n1Kres, .arr [.obj [([0x6B], .num (.int 1))], .obj [([0x6C], .num (.int 2))]])])] ∧
-    umapPipe n1Prog true n1PP = false ∧ progOk n1Prog n1Top = false :=
+    umapPipe n1Prog n1NP n1PP = false ∧ progOk n1Prog n1Top = false :=
   ⟨by decide, by decide, by decide, by decide, rfl, by decide, by decide⟩
 
 /-- the same consumer bound to an output of a STAGE (`what = split GEN.r`, which the
